@@ -195,7 +195,7 @@ pub fn run(ctx: &mut Ctx) {
             }
         }
     }
-    let n = ctx.budget(400_000, 20_000_000);
+    let n = ctx.budget(6_000_000, 80_000_000);
     // scattered raw boards (valid and invalid) and family positions
     for i in 0..n {
         let p = match i % 8 {
